@@ -72,7 +72,7 @@ def run(ctx):
     for i, (name, kind, I, P, M, xmw, letters, ticks) in enumerate(CONFIGS):
         depth = 4 if quick else 6
         jobs.append((name, kind, I, P, M, xmw, letters, ticks, depth, units[(i + ctx.seed) % 3], None))
-        n, dp = (200, 40) if quick else (10000, 100)
+        n, dp = (200, 40) if quick else (1500, 60)
         jobs.append((name, kind, I, P, M, xmw, letters, ticks, dp, units[(i + 1 + ctx.seed) % 3], "num=%d" % n))
     with ThreadPoolExecutor(max_workers=5) as ex:
         for f in [ex.submit(one, ctx, binary, *j) for j in jobs]:
